@@ -28,6 +28,9 @@ CORPUS = [
     S(("{k} a", (2, 3))), S(("{k}+a a", (5, 3))), S(("{q}", (2,))), S(("a {q}", (2, 2))), S(("a//(a-a)", (2,))), S(("a a//(a-a)", (2, 2))),
     S(("a b", (2, 3)), nocontext=True), S(("a", (2,)), ("a", (3,)), nocontext=True),
     S(("a b c", (2, 3, 4)), ("a b c", (2, 3, 5)), ("c", (9,))), S(("a *v b", (2, 7, 7, 3)), ("b *v a", (3, 7, 7, 2)), ("*v", (7, 8))),
+    # annotations made of symbolic / fixed / anonymous axes only: their verdict still depends on the context
+    S(("n", (5,)), ("2*n", (10,))), S(("n", (3,)), ("2*n", (10,))), S(("n", (3,)), ("2*n", (6,))), S(("2*n", (10,))),
+    S(("{k} 2", (2, 2))), S(("{k} 2", (2, 2)), args={"k": 3, "m": 5}), S(("n", (4,)), ("... #n+1 3", (5, 3))), S(("n", (2,)), ("... #n+1 3", (5, 3))),
     S(("min(a,b) a b", (2, 2, 3))), S(("a b a%b", (7, 3, 1))), S(("a b a//b", (7, 3, 2))), S(("a -a+10", (4, 6))), S(("d=4 rows=a", (4, 2))),
 ]
 
@@ -39,6 +42,19 @@ def main():
     sessions = list(CORPUS) + [G.gen_session(R.rng, raising=(i % 5 == 0)) for i in range(n)]
     out = vf.impl("impl_array.py", {"mode": "sessions", "sessions": sessions})
     impl, cats = out["results"], out["cat_dtypes"]
+    # the same sessions again in a fresh interpreter in which every (category, array type, dims) is ONE annotation object,
+    # re-used across checks, sessions and contexts: which object carries the annotation must not matter
+    nre = len(CORPUS) + (20000 if R.thorough else 1500)
+    out_re = vf.impl("impl_array.py", {"mode": "sessions", "sessions": sessions[:nre], "reuse": True}, bg=True)
+    for sess, a, b in zip(sessions[:nre], impl, out_re["results"]):
+        for j, (st, ra, rb) in enumerate(zip(sess["steps"], a, b)):
+            ga = ra["build"] if ra["build"] != "ok" else "%s %s" % (ra["verdict"], ra["memo"])
+            gb = rb["build"] if rb["build"] != "ok" else "%s %s" % (rb["verdict"], rb["memo"])
+            if ga != gb:
+                R.violation("property", "step %d of the session %s: with a fresh annotation object the check gives `%s`, with an annotation object that was used before (same category, array type and dims) it gives `%s`" % (
+                    j, [(x["dim"], tuple(x["shape"])) for x in sess["steps"][:j + 1]], ga, gb), {"session": dict(sess, steps=sess["steps"][:j + 1]), "fresh": ga, "reused": gb},
+                    key={"kind": "annotation-object-history", "dim": st["dim"]})
+                break
 
     terms = []
     for sess, res in zip(sessions, impl):
@@ -116,6 +132,7 @@ def main():
                       rule="%d corpus sessions (one per branch of the modelled code) + %d PRNG sessions of 1-5 checks in one context "
                            "(hidden consistent assignment, 30%% perturbed shapes, every modifier combination, variadic at every position, symbolic axes over bound/unbound names and {arg}, "
                            "NumPy/Any/duck/wrong-type values, 5 dtype/category pairs); compared: verdict or exception class and the exact memo (names, sizes, broadcast flags, insertion order) after every check. "
+                           "The corpus and the first sessions run a second time in a fresh interpreter where every distinct annotation is one re-used object (module-level alias): results must be identical. "
                            "non-trivial = distinct session with >1 check and a variadic, broadcast or symbolic axis" % (len(CORPUS), n))
     R.assumptions += ["symbolic expressions restricted to the grammar of DESIGN.md section 3 (parsed by Python's ast in the harness)",
                       "shapes are tuples of Python ints", "ASCII dim strings"]
